@@ -104,6 +104,27 @@ class Builder:
                         S("assign", base=bsto(PV), path=[], e=E("list", PAIR, elems=[c(70), c(80)]), decl=None),
                         S("assign", base=bsto(DYN), path=[], e=E("list", DARR, elems=[c(6), c(6), c(6)]), decl=None),
                         S("assign", base=bsto(BS), path=[], e=E("const", ("bytes", 7), v=b"changed"), decl=None)])
+        # sc(x): an effect function WITH a parameter (its frame overlaps an outer callee's argument area), returns 10*x+1
+        self.add_int("sc", [("a0", U256)], U256,
+                     [bump_ctr(), S("log", name="Tag", id=0, fields=["x"], args=[E("bin", U256, op="Add", a=c(800), b=E("var", U256, name="a0", id=0))]),
+                      S("return", e=E("bin", U256, op="Add", a=E("bin", U256, op="Mul", a=E("var", U256, name="a0", id=0), b=c(10)), b=c(1)))])
+        # callees taking multi-word arguments, returning a value that identifies every member
+        v0 = E("var", ARR3, name="a0", id=0)
+        def at(v, k):
+            return E("idx", U256, a=v, i=c(k))
+        def mix(x, y, z):
+            return E("bin", U256, op="Add", a=x, b=E("bin", U256, op="Add", a=E("bin", U256, op="Mul", a=y, b=c(1000)),
+                                                     b=E("bin", U256, op="Mul", a=z, b=c(1000000))))
+        self.add_int("sum3", [("a0", ARR3)], U256, [log_tag(730), S("return", e=mix(at(v0, 0), at(v0, 1), at(v0, 2)))])
+        self.add_int("sum3b", [("a0", ARR3), ("a1", U256)], U256,
+                     [log_tag(731), S("return", e=E("bin", U256, op="Add", a=mix(at(v0, 0), at(v0, 1), at(v0, 2)),
+                                                    b=E("bin", U256, op="Mul", a=E("var", U256, name="a1", id=1), b=c(10 ** 9))))])
+        vp = E("var", PAIR, name="a0", id=0)
+        self.add_int("sump", [("a0", PAIR)], U256,
+                     [log_tag(732), S("return", e=mix(E("fld", U256, a=vp, name="a", id=0), E("fld", U256, a=vp, name="b", id=1), c(0)))])
+        vd = E("var", DARR, name="a0", id=0)
+        self.add_int("sumd", [("a0", DARR)], U256,
+                     [log_tag(733), S("return", e=mix(E("idx", U256, a=vd, i=c(0)), E("idx", U256, a=vd, i=c(1)), E("len", U256, a=vd)))])
         # identity callees taking a multi-word first argument and a word
         for nm, ty in (("ida", ARR3), ("idp", PAIR), ("idd", DARR), ("idb", B40)):
             self.add_int(nm, [("a0", ty), ("a1", U256)], ty, [log_tag(720), S("return", e=E("var", ty, name="a0", id=0))])
@@ -334,6 +355,45 @@ class Builder:
         e = self.call("h", a, self.call("h", b, d)) if self.r.random() < 0.5 else self.call("h", self.call("h", a, b), d)
         self.add_test("callargs_nested", U256, [S("return", e=e)])
 
+    # internal-call arguments that are literals whose members contain internal calls (the callee's argument area is written
+    # while nested calls still run), and nested calls with parameters
+    def sc(self, k):
+        return self.call("sc", c(k))
+
+    def pos_callarg_list_of_calls(self):
+        a, b, d = self.r.sample(range(1, 9), 3)
+        self.add_test("callarg_list_of_calls", U256, [S("return", e=self.call("sum3", E("list", ARR3, elems=[self.sc(a), self.sc(b), self.sc(d)])))])
+
+    def pos_callarg_list_mixed(self):
+        a, b = self.r.sample(range(1, 9), 2)
+        self.add_test("callarg_list_mixed", U256, [S("return", e=self.call("sum3", E("list", ARR3, elems=[c(5), self.sc(a), E("bin", U256, op="Add", a=self.sc(b), b=c(1))])))])
+
+    def pos_callarg_list_then_word(self):
+        a, b = self.r.sample(range(1, 9), 2)
+        self.add_test("callarg_list_then_word", U256, [S("return", e=self.call("sum3b", E("list", ARR3, elems=[self.sc(a), self.sc(b), c(3)]), c(7)))])
+
+    def pos_callarg_list_then_call(self):
+        a, b, d = self.r.sample(range(1, 9), 3)
+        self.add_test("callarg_list_then_call", U256, [S("return", e=self.call("sum3b", E("list", ARR3, elems=[self.sc(a), c(2), self.sc(b)]), self.sc(d)))])
+
+    def pos_callarg_struct_of_calls(self):
+        a, b = self.r.sample(range(1, 9), 2)
+        self.add_test("callarg_struct_of_calls", U256, [S("return", e=self.call("sump", E("list", PAIR, elems=[self.sc(a), self.sc(b)])))])
+
+    def pos_callarg_dyn_of_calls(self):
+        a, b = self.r.sample(range(1, 9), 2)
+        self.add_test("callarg_dyn_of_calls", U256, [S("return", e=self.call("sumd", E("list", DARR, elems=[self.sc(a), self.sc(b)])))])
+
+    def pos_callarg_nested_with_params(self):
+        a, b, d = self.r.sample(range(1, 9), 3)
+        e = self.call("h", self.sc(a), self.call("h", self.sc(b), self.sc(d))) if self.r.random() < 0.5 else \
+            self.call("h", self.call("h", self.sc(a), self.sc(b)), self.sc(d))
+        self.add_test("callarg_nested_with_params", U256, [S("return", e=e)])
+
+    def pos_callarg_call_of_call(self):
+        a = self.r.randrange(1, 9)
+        self.add_test("callarg_call_of_call", U256, [S("return", e=self.call("sc", self.call("sc", self.sc(a))))])
+
     def pos_subscript_read(self):
         self.add_test("sub_read", U256, [
             S("assign", base=bsto(ARR), path=[("i", c(2))], e=c(42), decl=None),
@@ -530,7 +590,9 @@ class Builder:
                  "read_before_container_effect", "return", "list_literal", "dyn_literal", "loop_iterable",
                  "loop_iterable_dyn", "loop_range_bound", "log_args", "log_args3", "builtin_args", "convert_len",
                  "append_pop", "pop_both", "assert", "if_cond", "by_value_array", "by_value_storage_array",
-                 "by_value_scalar", "copy_then_effect", "arg_copy_vs_effect"]
+                 "by_value_scalar", "copy_then_effect", "arg_copy_vs_effect", "callarg_list_of_calls", "callarg_list_mixed",
+                 "callarg_list_then_word", "callarg_list_then_call", "callarg_struct_of_calls", "callarg_dyn_of_calls",
+                 "callarg_nested_with_params", "callarg_call_of_call"]
 
 
 RVE_POSITIONS = [f"rve_{cx}_{rd}" for cx in Builder.RVE_CONTEXTS for rd in Builder.RVE_READS]
